@@ -386,7 +386,17 @@ func validRaw(p *PSpec, r *rng.R) string {
 			if len(p.Enum) > 0 {
 				return p.Enum[r.Intn(len(p.Enum))]
 			}
-			return []string{"bb", "abc", "bcd"}[r.Intn(3)]
+			// plain strings also with blanks at either end (kept as they are; HTTP itself trims header values)
+			pool := []string{"bb", "abc", "bcd"}
+			if p.In != "header" && typ == p.Type {
+				for _, c := range []string{" bb", "bc ", "\tab", " b c "} {
+					n := int64(len(c))
+					if (p.MinLen == nil || n >= *p.MinLen) && (p.MaxLen == nil || n <= *p.MaxLen) {
+						pool = append(pool, c)
+					}
+				}
+			}
+			return pool[r.Intn(len(pool))]
 		case "integer", "number":
 			lo, hi := int64(1), int64(9)
 			if p.Min != nil {
